@@ -32,6 +32,10 @@ def _and(rs):
     return rs[0] if len(rs) == 1 else z3.Intersect(*rs)
 
 
+class NoModel(Exception):
+    pass
+
+
 def canonical_str(s, var, sigma=None):
     """canonical model of a satisfiable solver state for a string variable: shortest, then least characters position by
     position (alphanumerics first): sample values must not depend on which model z3 happens to return"""
@@ -46,7 +50,7 @@ def canonical_str(s, var, sigma=None):
             break
         s.pop()
     if L is None:
-        return unescape(s.model().eval(var, model_completion=True).as_string())
+        raise NoModel('no length decided (solver timeout)')
     out = ''
     order = sorted(sigma, key=lambda c: (not (c.isascii() and c.isalnum()), c))
     for i in range(L):
@@ -297,7 +301,7 @@ class Lex:
                 if cand not in avoid and self.valid_text(cand, upper=False) and self.collapse(cand) == cand:
                     return cand
         v = z3.String('v')
-        s.set('timeout', 5000)
+        s.set('timeout', 60000)
         nonempty = self.kind != 'string' or bool(self.T.get('patterns')) or bool(self.T.get('enums'))
         asc = rx.sigma_star([c for c in self.sigma if ord(c) < 127 and c not in '<>&"\''])
         s.add(self.str_ok(v, upper=False), z3.InRe(v, z3.Intersect(normalised_re(self.ws, self.sigma), asc)))
@@ -313,7 +317,11 @@ class Lex:
             s.add(*extra)
             r = str(s.check())
             if r == 'sat':
-                val = canonical_str(s, v, self.sigma)
+                try:
+                    val = canonical_str(s, v, self.sigma)
+                except NoModel:
+                    s.pop()
+                    continue
                 s.pop()
                 return val
             s.pop()
